@@ -742,7 +742,10 @@ class SArr:
             e = lift(src.get(idx), True)
             kq = cc.fresh_int("modq")
             r = e.val - z3.ToReal(kq) * d
-            cc.add_side(z3.Implies(z3.Not(e.nan), z3.And(r >= 0, r < d)))
+            # range fact in SCALED form (unit coefficient on the integer quotient): z3's mixed integer/real
+            # arithmetic diverges on the huge rational coefficients of 2*pi otherwise
+            sc = e.val / d - z3.ToReal(kq)
+            cc.add_side(z3.Implies(z3.Not(e.nan), z3.And(sc >= 0, sc < 1)))
             cc.note_mod(e.val, d, kq)
             out = FElem(e.nan, r)
             memo[(id(cc), k)] = out
